@@ -145,6 +145,15 @@ def _classify_tests(fn: ast.FunctionDef | None) -> list[str]:
                 out.append("data if " + ast.unparse(st.test))
             elif any(isinstance(x, ast.Raise) for x in st.body):
                 out.append("raise if " + ast.unparse(st.test))
+        elif isinstance(st, ast.Try):
+            # `try: level = Level(level_str)  except ValueError: … return True` — an unknown level is consumed silently
+            body = ast.unparse(st.body[0]) if st.body else ""
+            for h in st.handlers:
+                rets = [x for x in h.body if isinstance(x, ast.Return)]
+                if body == "level = Level(level_str)" and rets and ast.unparse(rets[-1].value) == "True":
+                    out.append("ignored if Level(level_str) raises " + (ast.unparse(h.type) if h.type is not None else "?"))
+                else:
+                    out.append("other:try " + body)
         elif isinstance(st, ast.Return) and st.value is not None:
             out.append("return " + ast.unparse(st.value))
     return out
